@@ -492,6 +492,9 @@ class G(object):
                        "none": ["@ExcludeRegion disable", "@ExcludeRegion off", "@Excl stop", "@RegionsOff"],
                        "both": ["@Excl stopping", "@Excl2 off"]}[custom if custom in ("only", "both", "none") else None]
             foreign += ["@Excl2 keep region 2 off limits", "@Excl2 part one done", "@Excl xgo", "@Excl please stop"]
+            if custom in (None, "both"):
+                # patterns are plain (case-sensitive) regular expressions
+                foreign += ["@ExcludeRegion OFF", "@ExcludeRegion Enable", "@ExcludeRegion DISABLE", "@ExcludeRegion On"]
             self.ops.append({"op": "line", "text": r.choice(foreign)})
             return
         self.ops.append({"op": "line", "text": r.choice(pool)})
@@ -521,6 +524,13 @@ class G(object):
         r = self.r
         from .worlds.printworld import DEFAULT_AT_ACTIONS
         which = r.choice([None, "only", "both", "none", "interleaved"])
+        if self.k.get("at_broken") and r.random() < 0.3:
+            # a saved list with an entry that cannot be constructed (a typo in its pattern), sorting first: the
+            # update fails as a whole, the actions configured before stay in effect
+            store = [{"command": "Aa", "parameterPattern": r.choice(["(", "[a-", "*x"]), "action": "disable_exclusion",
+                      "description": "typo"}] + list(DEFAULT_AT_ACTIONS)
+            self.ops.append({"op": "settings", "set": {"atCommandActions": store}})
+            return
         if which is None:
             acts = list(DEFAULT_AT_ACTIONS)
         elif which == "interleaved":
@@ -612,7 +622,10 @@ class G(object):
         elif kind == "settings_same":
             self.emit(op="settings", set={})
         elif kind == "g92e":
-            self.emit(op="g92e", e=r.choice([0.0, 0.0, r2(r.uniform(0, 500), 3)]))
+            op = {"op": "g92e", "e": r.choice([0.0, 0.0, r2(r.uniform(0, 500), 3)])}
+            if self.k.get("p_terminal_g92e") and r.random() < self.k["p_terminal_g92e"]:
+                op["via"] = "terminal"       # typed into the terminal while the job runs
+            self.ops.append(op)
         elif kind == "prime":
             if not self.retracted:
                 # extrusion in place (nozzle priming / purge blob): an E-only move that is not a recovery
@@ -733,7 +746,9 @@ def rand_code_line(rng, code):
     if code in MERGE_CODES:
         letters = rng.sample(MERGE_LETTERS, rng.randrange(1, 4))
         return code + "".join(" %s%s" % (l, rng.choice([str(rng.randrange(0, 2000)), "0", "0.0",
-                                                        "%.2f" % rng.uniform(0, 50)])) for l in letters)
+                                                        "%.2f" % rng.uniform(0, 50), "%.2f" % rng.uniform(0, 50),
+                                                        rng.choice(["0.00005", "0.00002", "0.000001"])]))
+                              for l in letters)
     if code in ("M117", "M118"):
         return "%s msg %d of %d" % (code, rng.randrange(100), rng.randrange(100))
     if code == "G4":
